@@ -602,7 +602,11 @@ pre = hdr_body[:icc.start()]
 f9_fixed = bool(icc.group(2)) or bool(re.search(r"this->tempICCBuf\s*=\s*NULL", pre)) or bool(re.search(r"this->tempICCSize\s*=\s*0", pre))
 
 f10_fixed = bool(re.search(r"master->lossless\s*=\s*FALSE", dyp + sdd))
-f12_fixed = bool(re.search(r"saw_Adobe_marker\s*=\s*FALSE", dyp + sdd)) and bool(re.search(r"saw_JFIF_marker\s*=\s*FALSE", dyp + sdd))
+f12_fixed = bool(re.search(r"saw_Adobe_marker\s*=[^;]*FALSE", dyp + sdd)) and bool(re.search(r"saw_JFIF_marker\s*=[^;]*FALSE", dyp + sdd))
+# F13: tj3DecodeYUVPlanes8 runs start_input_pass (entropy start_pass builds derived tables from whatever Huffman tables an
+# earlier header left in the permanent slots) unless it replaces that method or selects the arithmetic decoder
+f13_fixed = bool(re.search(r"inputctl->start_input_pass\s*=", dyp)) or bool(re.search(r"arith_code\s*=\s*TRUE", dyp + sdd)) or \
+    bool(re.search(r"(dc|ac)_huff_tbl_ptrs\[[^\]]*\]\s*=", dyp + sdd))
 ddp_body = preprocess(func_body(jdapimin, "default_decompress_parms"), dict(BASE_DEFS))
 if not re.search(r"cinfo->saw_JFIF_marker", ddp_body) or not re.search(r"cinfo->saw_Adobe_marker", ddp_body):
     sys.exit("default_decompress_parms no longer derives the colour space from saw_JFIF_marker / saw_Adobe_marker")
@@ -727,6 +731,8 @@ print("(* tj3DecodeYUVPlanes8 / setDecodeDefaults reset dinfo->master->lossless 
 print("Definition decodeyuv_resets_lossless : bool := %s." % str(f10_fixed).lower())
 print("(* tj3DecodeYUVPlanes8 / setDecodeDefaults reset saw_JFIF_marker and saw_Adobe_marker, from which default_decompress_parms derives the colour space (F12 fixed) *)")
 print("Definition decodeyuv_resets_marker_flags : bool := %s." % str(f12_fixed).lower())
+print("(* tj3DecodeYUVPlanes8 does not build derived Huffman tables from the permanent table slots (F13 fixed) *)")
+print("Definition decodeyuv_ignores_huffman_slots : bool := %s." % str(f13_fixed).lower())
 print("(* read_and_discard_scanlines cannot see a colour converter of an earlier image (F5 fixed) *)")
 print("Definition skip_ignores_stale_cconvert : bool := %s." % str(f5_fixed).lower())
 print("(* tj3Compress*: setCompDefaults is called before jpeg_mem_dest_tj *)")
